@@ -1,11 +1,14 @@
 """C10 - extra corpus for R3 (the Python side of the text round trip).
 
 R3 locates the post-processor by role (the callable handed to `Reconstructor.reconstruct`) and decides token preservation
-by a symbolic execution of its body, so the twins below cover the kinds of refactoring that must not matter: the function
-moved to module level / made a method / wrapped in a lambda or functools.partial, keyword arguments and temporaries at the
-call, a module-level reconstructor, the inverted test with an early `continue`, hoisted sub-expressions, index loops with
-the last element split off, `yield from` of a prepared list, joined / concatenated / formatted line text, an extracted
-generator helper, an explicit iterator with `next`, different spellings of the terminator set and of the buffer reset.
+by an inductive argument over one arbitrary iteration of its loop over the items (path-wise value flow with symbolic
+terms, nothing is executed), so the twins below cover the kinds of refactoring that must not matter: the function moved to
+module level / made a method / wrapped in a lambda or functools.partial, keyword arguments and temporaries at the call, a
+module-level reconstructor, the inverted test with an early `continue`, hoisted sub-expressions, index loops with the last
+element split off, `yield from` of a prepared list or of the buffer itself, joined / concatenated / formatted line text, an
+extracted generator or separator helper, an explicit iterator with `next`, different spellings of the terminator set and
+of the buffer reset, a clamped indent counter, an indent loop, a final flush after the loop.  Two twins are outside the
+recognised forms and only have to stay silent (undecided): the zip-based emission and the pipeline of two generators.
 The mutants break token preservation in each of those shapes (and on the original one)."""
 
 from selftest.corpus import M, T
@@ -178,3 +181,98 @@ M("C10", "dunder-str-render-drops-items", F, "x", "y", "C10.R3",
   edits=[(F, '    def __str__(self) -> str:\n        return self.as_text()\n\n    def as_text(self) -> str:\n', '    def as_text(self) -> str:\n        return str(self)\n\n    def __str__(self) -> str:\n'),
          (F, '                if item in "{};":\n', '                if item in "{;":\n')])
 M("C10", "from-text-prunes-tree", F, FROM_TEXT, '        profile.tree = c2profile_parser.parse(source)\n        profile.tree = Tree("start", profile.tree.children[:64])\n', "C10.R3")
+
+
+# ---------------------------------------------------------------------------------------------------- whole post-processors
+def _pp(body, ret=RETURN):
+    """A replacement for the nested post-processor of as_text: `body` is its (dedented) body."""
+    import textwrap
+
+    return "        def postproc(items):\n" + textwrap.indent(textwrap.dedent(body).strip("\n"), " " * 12) + "\n\n" + ret
+
+
+_HEAD = """
+line = []
+indent = 0
+for item in items:
+    line.append(item)
+    if item in "{};":
+"""
+
+T("C10", "twin-yield-from-buffer", F, AS_TEXT, _pp(_HEAD + '        yield from line\n        yield "\\n"\n        line = []\n'))
+T("C10", "twin-join-plus-item", F, AS_TEXT, _pp(_HEAD + '        yield " ".join(line[:-1]) + item + "\\n"\n        line = []\n'))
+T("C10", "twin-final-flush-after-loop", F, AS_TEXT, _pp(_HEAD + '        yield " ".join(line) + "\\n"\n        line = []\nif line:\n    yield " ".join(line)\n'))
+T("C10", "twin-clamped-indent", F, AS_TEXT, _pp("""
+line = []
+indent = 0
+for item in items:
+    line.append(item)
+    if item in "{};":
+        if item == "}":
+            indent = max(indent - 1, 0)
+        yield "    " * indent + " ".join(line) + "\\n"
+        if item == "{":
+            indent += 1
+        line = []
+"""))
+T("C10", "twin-indent-loop", F, AS_TEXT, _pp("""
+line = []
+indent = 0
+for item in items:
+    line.append(item)
+    if item in "{};":
+        if item == "}":
+            indent -= 1
+        for _ in range(indent):
+            yield "    "
+        yield " ".join(line) + "\\n"
+        if item == "{":
+            indent += 1
+        line = []
+"""))
+T("C10", "twin-constant-brace", F, AS_TEXT, _pp("""
+line = []
+for item in items:
+    line.append(item)
+    if item == "{":
+        yield " ".join(line[:-1]) + " {\\n"
+        line = []
+    elif item in "};":
+        yield " ".join(line) + "\\n"
+        line = []
+"""))
+T("C10", "twin-separator-helper-function", F, AS_TEXT, _pp("""
+def sep_for(buf, i):
+    if len(buf) > i + 1 and buf[i + 1] != ";":
+        return " "
+    return ""
+
+line = []
+for item in items:
+    line.append(item)
+    if item in "{};":
+        for i, x in enumerate(line):
+            yield x + sep_for(line, i)
+        yield "\\n"
+        line = []
+"""))
+T("C10", "twin-reset-by-empty-slice", F, '                    line = []\n\n', '                    line = line[:0]\n\n')
+M("C10", "yield-from-buffer-without-lark-spaces", F, AS_TEXT, _pp(_HEAD + '        yield from line\n        yield "\\n"\n        line = []\n', RETURN.replace("postproc)", "postproc, insert_spaces=False)")), "C10.R3")
+M("C10", "reversed-emit-loop", F, EMIT, '                    for x in reversed(line):\n                        yield x\n                        yield " "\n', "C10.R3")
+M("C10", "flush-line-without-terminator", F, AS_TEXT, _pp(_HEAD + '        yield " ".join(line[:-1]) + "\\n"\n        line = []\n'), "C10.R3")
+M("C10", "flush-test-on-first-buffered-item", F, '                if item in "{};":\n', '                if line[0] in "{};":\n', "C10.R3")
+M("C10", "terminator-starts-next-line", F, AS_TEXT, _pp("""
+line = []
+for item in items:
+    if item in "{};":
+        yield " ".join(line) + "\\n"
+        line = []
+    line.append(item)
+"""), "C10.R3")
+M("C10", "constant-semicolon-for-every-terminator", F, AS_TEXT, _pp(_HEAD + '        yield " ".join(line[:-1]) + " ;\\n"\n        line = []\n'), "C10.R3")
+M("C10", "only-first-buffered-item-emitted", F, EMIT, '                    yield line[0]\n', "C10.R3")
+M("C10", "item-stripped-before-buffering", F, '                line.append(item)\n', '                line.append(item.strip())\n', "C10.R3")
+M("C10", "set-keyword-not-buffered", F, '                line.append(item)\n', '                if item == "set":\n                    continue\n                line.append(item)\n', "C10.R3")
+M("C10", "comment-text-yielded", F, '                    yield " " * 4 * indent\n', '                    yield " " * 4 * indent\n                    yield "# line\\n"\n', "C10.R3")
+M("C10", "item-yielded-twice", F, '                        yield x\n', '                        yield x\n                        yield " "\n                        yield x\n', "C10.R3")
+M("C10", "flush-only-long-lines", F, '                if item in "{};":\n', '                if item in "{};" and len(line) > 1:\n', "C10.R3")
